@@ -13,6 +13,7 @@ EXTENDS EventIdentity, Json
 VersionsAll == AllVersions
 ShapesAll == AllShapes
 ShapesLite == {1, 2, 5, 7, 9, 12}
+ShapesNum == {1, 7, 9}         \* message (number redactable), create (kept whole from v11), power levels
 VariantsAll == AllVariants
 Variants12 == {1, 2}
 Variants1 == {1}
@@ -28,19 +29,21 @@ SibAll == AllSibFields
 NoFields == {}
 
 ProtoJson(p) ==
-    [type |-> p.type, sk |-> p.sk, redacts |-> p.redacts, con |-> p.con, tpiobj |-> p.tpi.obj, tpi |-> p.tpi.keys,
+    [type |-> p.type, sk |-> p.sk, redacts |-> p.redacts, num |-> p.num, con |-> p.con, tpiobj |-> p.tpi.obj, tpi |-> p.tpi.keys,
      prev |-> p.prev, auth |-> p.auth, depth |-> p.depth, unsigned |-> p.unsigned, room |-> p.room,
      sender |-> p.sender, ts |-> p.ts, origin |-> p.origin, sigkey |-> p.sigkey]
 
 Complete ==
-    \/ (Family = "ops" /\ Len(hist) = MaxOps)
-    \/ (Family # "ops" /\ phase = "done")
+    \/ phase = "refused"
+    \/ (Family \in {"ops", "num"} /\ Len(hist) = MaxOps)
+    \/ (Family \notin {"ops", "num"} /\ phase = "done")
 
 Emit ==
     Complete =>
         PrintT(ToJson(
-            IF Family = "ops" THEN
-                [fam |-> "ops", ver |-> ver, idfmt |-> EventIDFormat(ver), proto |-> ProtoJson(proto), steps |-> hist]
+            IF Family \in {"ops", "num"} THEN
+                [fam |-> "ops", ver |-> ver, idfmt |-> EventIDFormat(ver), proto |-> ProtoJson(proto), steps |-> hist,
+                 refuse |-> phase = "refused"]
             ELSE IF Family = "sib" THEN
                 [fam |-> "sib", ver |-> ver, idfmt |-> EventIDFormat(ver), proto |-> ProtoJson(proto), steps |-> hist,
                  f |-> out.f, proto2 |-> ProtoJson(out.proto2), same |-> out.same]
